@@ -1,4 +1,6 @@
 """C04 — mutex: mutual exclusion, no lost wake-up, non-blocking trylock."""
+import os
+
 import common
 from props import sched_common
 
@@ -31,6 +33,8 @@ def run(res):
                     d = sched_common.save_replay("C04", r, ["mutex_prog"] + v[idx % len(v)], 0)
                     res.violations.append((d, True, "trylock oracle: " + bad))
                     break
+    if not res.violations:
+        sched_common.free_stress(res, "C04", "mutex", [(4, 6, 3000, 2), (2, 4, 4000, 1), (8, 8, 1500, 0), (3, 3, 4000, 3), (1, 4, 2000, 1)])
     if res.breaks and not res.violations:
         sched_common.search_more(res, "C04", "mutex_prog", variants(res.seed + 1), 300)
     res.assumptions += [
@@ -42,6 +46,8 @@ def run(res):
 
 
 def replay(path):
+    if os.path.isfile(path) and path.endswith("stress.txt") and open(path).readline().startswith("sync_stress_prog"):
+        return sched_common.replay_stress("C04", path)
     return sched_common.replay("C04", path)
 
 
